@@ -15,6 +15,17 @@ static const char *uni[MAXK + 1]; /* key id -> string, ids 1..nuni */
 static int nuni;
 static char longkey[400], longkey2[400];
 
+/* the same key text presented through pointers of every alignment (a key is its bytes, not where they live):
+ * a rotating pool of copies at offsets 0..3 from an aligned base */
+static const char *kp(int k)
+{
+	static union { long long align; char b[520]; } pool[16];
+	static int rot;
+	char *base = pool[rot++ & 15].b + vh_below(4);
+	size_t n = strlen(uni[k]);
+	memcpy(base, uni[k], n + 1);
+	return base;
+}
 static int key_id(const char *s)
 {
 	for (int i = 1; i <= nuni; i++)
@@ -196,8 +207,8 @@ static void observe(const char *op, int k, int v, int ret, const int *ks, int nk
 		for (int i = 1; i <= nuni; i++)
 		{
 			json_object *val = 0;
-			int found = json_object_object_get_ex(obj, uni[i], &val);
-			json_object *val2 = json_object_object_get(obj, uni[i]);
+			int found = json_object_object_get_ex(obj, kp(i), &val);
+			json_object *val2 = json_object_object_get(obj, kp(i));
 			if (found && val2 != val)
 				look[i - 1] = -7; /* the two lookup entry points disagree */
 			else
@@ -310,9 +321,9 @@ static void do_add(int k, int v, int isnew, int constkey)
 		json_object *val = json_object_new_int(v);
 		unsigned opts = (isnew ? JSON_C_OBJECT_ADD_KEY_IS_NEW : 0) | (constkey ? JSON_C_OBJECT_ADD_CONSTANT_KEY : 0);
 		if (!opts && vh_below(2))
-			ARMED(ret = json_object_object_add(obj, uni[k], val));
+			ARMED(ret = json_object_object_add(obj, kp(k), val));
 		else
-			ARMED(ret = json_object_object_add_ex(obj, uni[k], val, opts));
+			ARMED(ret = json_object_object_add_ex(obj, constkey ? uni[k] : kp(k), val, opts));
 		if (ret != 0)
 			json_object_put(val);
 	}
@@ -327,8 +338,8 @@ static void do_del(int k)
 	else
 	{
 		/* json_object_object_del returns nothing: presence before the call is the result */
-		ret = json_object_object_get_ex(obj, uni[k], NULL) ? 0 : -1;
-		json_object_object_del(obj, uni[k]);
+		ret = json_object_object_get_ex(obj, kp(k), NULL) ? 0 : -1;
+		json_object_object_del(obj, kp(k));
 	}
 	observe("del", k, 0, ret, 0, 0, 0, 0);
 }
@@ -383,7 +394,7 @@ static void do_get(int k)
 	else
 	{
 		json_object *val = 0;
-		v = json_object_object_get_ex(obj, uni[k], &val) ? json_object_get_int(val) : -1;
+		v = json_object_object_get_ex(obj, kp(k), &val) ? json_object_get_int(val) : -1;
 	}
 	observe("get", k, v, 0, 0, 0, 0, 0);
 }
@@ -481,7 +492,10 @@ static int replay(const char *path, long start, int lvl, int faults)
 static char coll[12][24];
 static void big_universe(int hash)
 {
-	static const char *base[] = {"", "a", "b", "ab", "ba", "key", "key0", "key1", "0", "1", "-", "x y", "~0", "/a", "Z"};
+	/* (lengths 11, 12, 13, 23, 24, 35: every tail case of a 12-byte-block hash) */
+	static const char *base[] = {"", "a", "b", "ab", "ba", "key", "key0", "key1", "0", "1", "-", "x y", "~0", "/a", "Z",
+	                             "elevenchars", "twelve chars", "thirteen char", "twenty-three characters",
+	                             "twenty-four characters..", "a key of thirty-five characters ...", "abcde", "abcdefg", "abcdefghij"};
 	nuni = 0;
 	for (unsigned i = 0; i < sizeof base / sizeof *base; i++)
 		uni[++nuni] = base[i];
